@@ -18,7 +18,7 @@ def compile_jobs(erg, env, jobs, workers=14, timeout=120):
         os.makedirs(j["outdir"], exist_ok=True)
         cmd = [erg, "compile", "--py-magic-num", str(j["magic"]), "--output-dir", j["outdir"], j["src"]]
         try:
-            p = subprocess.run(cmd, cwd=j["cwd"], env=e, stdout=subprocess.PIPE, stderr=subprocess.PIPE, timeout=timeout,
+            p = subprocess.run(cmd, cwd=j["cwd"], env=e, stdout=subprocess.PIPE, stderr=subprocess.PIPE, timeout=j.get("timeout", timeout),
                                text=True, errors="replace", stdin=subprocess.DEVNULL)
         except subprocess.TimeoutExpired:
             j["error"] = "timeout"
